@@ -307,6 +307,55 @@ theorem diffVar_nonneg (m : ℕ) (q : List α) : 0 ≤ diffVarG (0 : α) Nat.cas
   obtain ⟨v, _, rfl⟩ := List.mem_map.1 hy
   exact mul_self_nonneg _
 
+/-! ## textbook (centred) forms of f4 and f7 -/
+
+omit [LinearOrder α] [IsStrictOrderedRing α] in
+/-- **sum of squares: variance** in its textbook form `Σ_{i,j} (j − μ_x)² p(i,j)` (and the same for rows) -/
+theorem var_centered (m : ℕ) (P : ℕ → ℕ → α) (h1 : ∑ i ∈ range m, ∑ j ∈ range m, P i j = 1) :
+    varG (0 : α) Nat.cast (colSumG 0 m P) m =
+      ∑ i ∈ range m, ∑ j ∈ range m, P i j * ((j : α) - meanG 0 Nat.cast (colSumG 0 m P) m) ^ 2 ∧
+    varG (0 : α) Nat.cast (rowSumG 0 m P) m =
+      ∑ i ∈ range m, ∑ j ∈ range m, P i j * ((i : α) - meanG 0 Nat.cast (rowSumG 0 m P) m) ^ 2 := by
+  rw [dsum_eq_prod] at h1
+  constructor
+  · rw [var_colSum, mean_colSum, dsum_eq_prod]
+    exact weighted_var _ (fun x : ℕ × ℕ => P x.1 x.2) (fun x : ℕ × ℕ => (x.2 : α)) h1
+  · rw [var_rowSum, mean_rowSum, dsum_eq_prod]
+    exact weighted_var _ (fun x : ℕ × ℕ => P x.1 x.2) (fun x : ℕ × ℕ => (x.1 : α)) h1
+
+omit [LinearOrder α] [IsStrictOrderedRing α] in
+/-- `Σ_k g(k) p_{x+y}(k) = Σ_{i,j} g(i+j) p(i,j)` -/
+theorem pplus_moment (m : ℕ) (P : ℕ → ℕ → α) (g : ℕ → α) :
+    gsum 0 ((List.range (2 * m)).map fun k => g k * (pplusG (0 : α) m P).getD k 0) =
+      ∑ i ∈ range m, ∑ j ∈ range m, g (i + j) * P i j := by
+  rw [gsum_eq_sum, sum_map_range]
+  have h1 : ∀ k ∈ range (2 * m), g k * (pplusG (0 : α) m P).getD k 0 =
+      ∑ i ∈ range m, ∑ j ∈ range m, (if i + j = k then g k * P i j else 0) := by
+    intro k hk
+    rw [pplus_getD' m P k (Finset.mem_range.1 hk), Finset.mul_sum]
+    refine Finset.sum_congr rfl fun i _ => ?_
+    rw [Finset.mul_sum]
+    refine Finset.sum_congr rfl fun j _ => ?_
+    split <;> simp
+  rw [Finset.sum_congr rfl h1, Finset.sum_comm]
+  refine Finset.sum_congr rfl fun i hi => ?_
+  rw [Finset.sum_comm]
+  refine Finset.sum_congr rfl fun j hj => ?_
+  have hmem : i + j ∈ range (2 * m) := by
+    have := Finset.mem_range.1 hi; have := Finset.mem_range.1 hj
+    exact Finset.mem_range.2 (by omega)
+  rw [Finset.sum_ite_eq, if_pos hmem]
+
+omit [LinearOrder α] [IsStrictOrderedRing α] in
+/-- **sum variance** in its textbook form `Σ_{i,j} (i + j − μ)² p(i,j)` -/
+theorem sumVar_eq (m : ℕ) (P : ℕ → ℕ → α) (mu : α) :
+    sumVarG (0 : α) Nat.cast m (pplusG 0 m P) mu =
+      ∑ i ∈ range m, ∑ j ∈ range m, ((i : α) + (j : α) - mu) ^ 2 * P i j := by
+  unfold sumVarG
+  rw [pplus_moment m P (fun k => ((k : α) - mu) * ((k : α) - mu))]
+  refine Finset.sum_congr rfl fun i _ => Finset.sum_congr rfl fun j _ => ?_
+  rw [Nat.cast_add]; ring
+
 /-! ## the normalised matrix satisfies the hypotheses -/
 
 theorem matAt_nonneg (m : ℕ) (c : List ℕ) (i j : ℕ) : (0 : α) ≤ matAt 0 m (normMat (Nat.cast : ℕ → α) c) i j :=
